@@ -70,7 +70,7 @@ def tape_part(chk, EoN):
 
 
 def main():
-    chk = Check("C18", "model_checking")
+    chk = Check("C18", "exploration")
     EoN = common.import_eon()
     mres = tlc.run_tlc("ApiFrame", c19.MC_CFG, workers=4, coverage=True, timeout=600)
     chk.add_tlc("ApiFrame (a seeded call is a deterministic function of its arguments and the seed)", mres)
